@@ -286,7 +286,28 @@ def kahn_counters(rep, S, f, q, wl, fl, state, out_, work):
         b = b[1]
         same_pattern.append(b)
     okc = fo["iter"][0] == "call" and fo["iter"][1] == U + "ch" and fo["iter"][2][:1] == (popped,) and fo["iter"][2][1] in same_pattern
-    rep.decide("KAHN.children", okc, fwhere(f, fo["node"]), "visits the children of the emitted node (in the unchanged pattern)", "inner loop runs over %s" % fmt(fo["iter"])[:100])
+    it_ = fo["iter"]
+    core_ = it_
+    while core_[0] == "ext" and core_[1] in ("set", "list", "sorted", "tuple") and len(core_[2]) == 1:
+        core_ = core_[2][0]
+    rowcases = []
+    for M_ in same_pattern:
+        row = ("sub", M_, ("tuple", (popped, FULL_)))
+        row1 = ("sub", M_, popped)
+        for r_ in (row, row1):
+            nz = ("cmp", "!=", r_, ("const", 0))
+            rowcases += [("sub", ("ext", "numpy.where", (nz,), ()), ("const", 0)), ("sub", ("ext", "numpy.nonzero", (nz,), ()), ("const", 0)), ("ext", "numpy.flatnonzero", (nz,), ()),
+                         ("ext", "numpy.flatnonzero", (r_,), ()), ("sub", ("ext", "numpy.nonzero", (r_,), ()), ("const", 0))]
+    if okc:
+        rep.ok("KAHN.children", fwhere(f, fo["node"]), "visits the children of the emitted node (in the unchanged pattern)")
+    elif core_ in rowcases:
+        # the non-zero entries of row i of the 0/1 pattern: the children, given that the pre-check has excluded two-cycles (a self-loop keeps its
+        # own counter positive, so its node is never emitted)
+        rep.ok("KAHN.children", fwhere(f, fo["node"]), "visits the non-zero entries of the emitted node's row of the unchanged pattern (its children: two-cycles were rejected before)")
+    elif it_[0] == "call" and it_[1].startswith(U):
+        rep.bad("KAHN.children", fwhere(f, fo["node"]), "inner loop runs over %s" % fmt(it_)[:100])
+    else:
+        rep.unk("KAHN.children", fwhere(f, fo["node"]), "inner loop runs over %s: whether these are the children of the emitted node is not read" % fmt(it_)[:100])
     sts = [s_ for s_ in S.select("store", root=q) if lf in s_.loops]
     loopfact = [x for x in S.select("loop", root=q) if x.lid == lf]
     once = len(sts) == 1 and sts[0].base == ("mu", lf, deg_) and sts[0].idx == j and sts[0].aug == "-" and is_const(sts[0].value, 1) and \
